@@ -186,6 +186,7 @@ type multiStreamListener struct {
 	ln          StreamListener
 	count       uint32
 	acceptCh    chan acceptResponse
+	doneCh      chan struct{}
 	onCloseFunc OnCloseFunc
 }
 
@@ -212,23 +213,27 @@ func (m *multiStreamListener) Acquire() (StreamListener, error) {
 		}
 		m.ln = &TCPListener{ln}
 		m.acceptCh = make(chan acceptResponse)
-		go func() {
+		m.doneCh = make(chan struct{})
+		go func(ln StreamListener, acceptCh chan acceptResponse, doneCh chan struct{}) {
 			for {
-				m.mu.Lock()
-				ln := m.ln
-				m.mu.Unlock()
-
-				if ln == nil {
-					return
-				}
 				conn, err := ln.AcceptStream()
 				if errors.Is(err, net.ErrClosed) {
-					close(m.acceptCh)
+					close(acceptCh)
 					return
 				}
-				m.acceptCh <- acceptResponse{conn, err}
+				select {
+				case acceptCh <- acceptResponse{conn, err}:
+				case <-doneCh:
+					// The last listener was closed while we were holding a connection
+					// that nobody can accept anymore.
+					if conn != nil {
+						conn.Close()
+					}
+					close(acceptCh)
+					return
+				}
 			}
-		}()
+		}(m.ln, m.acceptCh, m.doneCh)
 	}
 
 	m.count++
@@ -241,6 +246,7 @@ func (m *multiStreamListener) Acquire() (StreamListener, error) {
 			defer m.mu.Unlock()
 			m.count--
 			if m.count == 0 {
+				close(m.doneCh)
 				m.ln.Close()
 				m.ln = nil
 				if m.onCloseFunc != nil {
